@@ -6,7 +6,7 @@ use pdatastructs::topk::cmsheap::CMSHeap;
 use serde_json::json;
 use std::collections::{HashMap, HashSet};
 
-pub const RULE: &str = "k in {1,2,3,5,10,50}; sketches (w,d) in {1x1,1x3,2x2,3x2,16x4,272x3,4096x4}; alphabets 2..1e4; streams with ties, rotating leaders, a late riser that must displace the minimum, bursts, Zipf; exact counts + a shadow CountMinSketch with identical parameters fed the same stream give E = max overestimate over seen elements; at every prefix (small alphabets, streams <= 3000) or every 50 items: iter() yields exactly min(k, distinct seen) distinct elements that were all added, and every missing element x has >= k other elements with true count >= true(x) - E (with E = 0: a set of k elements of maximal true frequency); is_empty iff nothing added; any panic in add is a violation (also with debug assertions on). non-trivial = stream with >= 1 displacement and >= 1 rejection; distinct = (k, sketch, stream kind, seed) tuples";
+pub const RULE: &str = "k in {1,2,3,5,10,50}; sketches (w,d) in {1x1,1x3,2x2,3x2,16x4,272x3,4096x4}; alphabets 2..1e4; streams with ties, rotating leaders, a late riser that must displace the minimum, bursts, Zipf; exact counts + a shadow CountMinSketch with identical parameters fed the same stream give E = max overestimate over seen elements; at every prefix (small alphabets, streams <= 3000) or every 50 items: iter() yields exactly min(k, distinct seen) distinct elements that were all added, and every missing element x has >= k other elements with true count >= true(x) - E (with E = 0: a set of k elements of maximal true frequency); is_empty iff nothing added; any panic in add is a violation (also with debug assertions on; also for k = usize::MAX and other huge k); in 30 % of the streams the heap is replaced by its clone at a random position and the oracle continues on the clone. non-trivial = stream with >= 1 displacement and >= 1 rejection; distinct = (k, sketch, stream kind, seed) tuples";
 pub const ASSUMPTIONS: &[&str] = &["the shadow CountMinSketch uses the same default hasher as the one inside CMSHeap, so both make identical estimates"];
 
 #[derive(Clone, Copy, Debug)]
@@ -87,6 +87,7 @@ fn item(ctx: &Ctx, i: usize, rep: &mut Report) {
     rep.config(format!("k={},w={},d={},{:?}", k, w, d, kind));
     let stream = gen_stream(kind, n, alphabet, &mut r);
     let snap0 = pdatastructs::verif::snapshot();
+    let clone_at: Option<usize> = if r.chance(0.3) { Some(r.below(n as u64) as usize) } else { None };
     let mut checks = 0u64;
     let mut collision_free_checks = 0u64;
     let mut max_e = 0usize;
@@ -98,6 +99,10 @@ fn item(ctx: &Ctx, i: usize, rep: &mut Report) {
             return Some(("C10/fresh-state".into(), "fresh heap not empty".into()));
         }
         for (idx, x) in stream.iter().enumerate() {
+            if clone_at == Some(idx) {
+                // continue on a clone: a copy must carry everything later answers depend on
+                heap = heap.clone();
+            }
             heap.add(*x);
             shadow.add(x);
             *truth.entry(*x).or_insert(0) += 1;
@@ -184,6 +189,30 @@ fn item(ctx: &Ctx, i: usize, rep: &mut Report) {
     }
 }
 
+/// every k >= 1 is legal, also "keep everything" values such as usize::MAX
+fn huge_k(rep: &mut Report) {
+    for k in [usize::MAX, usize::MAX / 2 + 1, 1usize << 40, u32::MAX as usize + 1] {
+        rep.evaluations += 1;
+        let res = guarded(|| -> Option<(String, String)> {
+            let mut heap: CMSHeap<u64> = CMSHeap::new(k, CountMinSketch::with_params(16, 4));
+            for x in [5u64, 6, 5, 7, 5, 6] {
+                heap.add(x);
+            }
+            let mut got: Vec<u64> = heap.iter().collect();
+            got.sort_unstable();
+            if got != vec![5, 6, 7] {
+                return Some(("C10/result-size".into(), format!("k = {}: iter() yields {:?} after adding 5,6,5,7,5,6", k, got)));
+            }
+            None
+        });
+        match res {
+            Ok(None) => rep.count("huge_k_values_ok", 1),
+            Ok(Some((sig, what))) => rep.violation(sig, what, json!({"k": k})),
+            Err(msg) => rep.violation(format!("C10/add-panics/{}", panic_class(&msg)), format!("cmsheap(k={}): panicked: {}", k, msg), json!({"k": k, "stream": [5, 6, 5, 7, 5, 6]})),
+        }
+    }
+}
+
 pub fn run(ctx: &Ctx) -> Report {
     let n = match (ctx.tier, ctx.is_dbg()) {
         (Tier::Quick, false) => 24_000,
@@ -191,7 +220,12 @@ pub fn run(ctx: &Ctx) -> Report {
         (Tier::Thorough, false) => 400_000,
         (Tier::Thorough, true) => 6000,
     };
-    let mut rep = par_run(ctx, n, |i, rep| item(ctx, i, rep));
+    let mut rep = par_run(ctx, n, |i, rep| {
+        if i == 0 {
+            huge_k(rep);
+        }
+        item(ctx, i, rep)
+    });
     rep.require_events(&["HeapKnown", "HeapRoom", "HeapDisplace", "HeapReject"]);
     rep
 }
